@@ -90,6 +90,7 @@ func init() {
 			obs = append(obs, c.PaletteConfig()...)
 			obs = append(obs, c.BitStorageFixSibling()...)
 			obs = append(obs, c.BitStorageDerivedRefreshed()...)
+			obs = append(obs, c.FixRefusalChangesNothing()...)
 			obs = append(obs, c.PaletteSizeBound("level")...)
 			return obs
 		},
